@@ -29,6 +29,10 @@ type World struct {
 	// V1Window selects which heights in [AllowHeight, RequireHeight) are mined as (still legal) v1
 	// blocks: "" none (what coreutils.MineBlock does), "all", "alt" (even heights), "first", "last"
 	V1Window string
+	// Pace maps a branch prefix to its block pace: "fast" (every block reuses its parent's timestamp:
+	// ahead of schedule, difficulty rises), "slow" (wall-clock timestamps, years behind schedule:
+	// difficulty falls); default: parent + 1 s (on schedule)
+	Pace map[string]string
 
 	mu     sync.Mutex
 	name   map[types.BlockID]string
@@ -42,6 +46,7 @@ type World struct {
 	xn     int
 	cpState map[types.BlockID]consensus.State // crafted checkpoint parent states (bogus-binding attack)
 	content  map[types.BlockID]types.Hash256
+	cpBlock  map[types.BlockID]types.Block // altered copies of checkpoint blocks (same id) served with a crafted fork
 	variants map[types.Hash256]*variant // blocks with a known id but different content
 }
 
@@ -226,7 +231,14 @@ func (w *World) Extend(cm *chain.Manager, prefix string, n int) []types.Block {
 	for i := 0; i < n; i++ {
 		cs := cm.TipState()
 		salt := []byte(fmt.Sprintf("%s-%d-%s", prefix, cs.Index.Height+1, w.Seed))
-		b := mineOnV(cs, addr, salt, cs.PrevTimestamps[0].Add(time.Second), w.v1At(w.V1Window, cs.Index.Height+1))
+		ts := cs.PrevTimestamps[0].Add(time.Second)
+		switch w.Pace[prefix] {
+		case "fast":
+			ts = cs.PrevTimestamps[0]
+		case "slow":
+			ts = types.CurrentTimestamp()
+		}
+		b := mineOnV(cs, addr, salt, ts, w.v1At(w.V1Window, cs.Index.Height+1))
 		if err := cm.AddBlocks([]types.Block{b}); err != nil {
 			panic(fmt.Sprintf("mined block rejected: %v", err))
 		}
@@ -507,4 +519,20 @@ func (w *World) NameOfBlock(b types.Block) string {
 	}
 	w.variants[ch] = v
 	return v.name
+}
+
+func (w *World) setCheckpointBlock(id types.BlockID, b types.Block) {
+	w.mu.Lock()
+	defer w.mu.Unlock()
+	if w.cpBlock == nil {
+		w.cpBlock = map[types.BlockID]types.Block{}
+	}
+	w.cpBlock[id] = b
+}
+
+func (w *World) checkpointBlock(id types.BlockID) (types.Block, bool) {
+	w.mu.Lock()
+	defer w.mu.Unlock()
+	b, ok := w.cpBlock[id]
+	return b, ok
 }
